@@ -299,3 +299,78 @@ func VHarness_C08_OnDiskSnapshotChain() {
 	}
 	vReach("done")
 }
+
+// C20 (+C08): a replica restarted on an imported snapshot always ends in the
+// state of the image, whatever its on-disk state machine held before (nothing
+// = a new member or a lost disk, older data, or newer data of the shard's
+// previous life): the image is loaded, applied index / term / membership are
+// the image's, and what the state machine contains is what the image contains.
+// The record is what tools.ImportSnapshot writes: Imported set, OnDiskIndex 0.
+//vcheck: props=C20,C08 reach=empty-disk,older-disk,newer-disk,regular,done workers=8
+func VHarness_C20_RestartOnImportedSnapshot() {
+	// the exporter: some replica of the old shard that applied three entries
+	n := 2
+	vInitResults(n)
+	var ents []pb.Entry
+	for i := 0; i < n; i++ {
+		ents = append(ents, vTwinEntry(vBase+uint64(i)))
+	}
+	onDisk := vBool("onDisk")
+	nodeA, uA := &vNode{}, &vUSM{onDisk: onDisk}
+	snA := &vSnapshotter{}
+	A := vNewSM(uA, nodeA, snA, 2)
+	A.index, A.term = vBase-1, 5
+	A.lastApplied.index, A.lastApplied.term = vBase-1, 5
+	if onDisk {
+		_, err := A.OpenOnDiskStateMachine()
+		vAssert(err == nil, "noerr")
+	}
+	A.taskQ.Add(Task{Entries: ents})
+	_, err := A.Handle(nil, nil)
+	vAssert(err == nil, "noerr")
+	ssA, _, err := A.Save(SSRequest{Type: Exported, Path: "/export"})
+	vAssert(err == nil, "export-ok")
+	// what the import tool records on the target host
+	img := *snA.img
+	img.ss.Imported = true
+	img.ss.OnDiskIndex = 0
+	img.ss.Membership = pb.Membership{Addresses: map[uint64]string{1: "a1"}, NonVotings: map[uint64]string{}, Witnesses: map[uint64]string{}, Removed: map[uint64]bool{2: true, 3: true}, ConfigChangeId: ssA.Index}
+	// the restarted replica
+	open := uint64(0)
+	if onDisk {
+		switch vChoose("diskBefore", 3) {
+		case 0:
+			vReach("empty-disk")
+		case 1:
+			open = ssA.Index - 1
+			vReach("older-disk")
+		case 2:
+			open = ssA.Index + 2
+			vReach("newer-disk")
+		}
+	} else {
+		vReach("regular")
+	}
+	nodeB, uB := &vNode{self: 1}, &vUSM{onDisk: onDisk, openIndex: open}
+	if open > 0 {
+		uB.updates = []vUpd{{index: open, tag: 0xee}} // whatever the old life left there
+	}
+	snB := &vSnapshotter{img: &img}
+	B := vNewSM(uB, nodeB, snB, 2)
+	if onDisk {
+		_, err = B.OpenOnDiskStateMachine()
+		vAssert(err == nil, "noerr")
+	}
+	_, err = B.Recover(Task{Recover: true, Initial: true})
+	vAssert(err == nil, "restart-recover-ok")
+	vAssert(snB.loads == 1, "imported-image-loaded-at-restart")
+	vAssert(B.index == ssA.Index && B.term == ssA.Term, "applied-index-and-term-are-the-image's")
+	vSameMembership(img.ss.Membership, B.members.members, "imported-")
+	vAssert(len(uB.updates) == len(uA.updates), "state-machine-content-is-the-image's")
+	if len(uB.updates) == len(uA.updates) {
+		for i := range uA.updates {
+			vAssert(uB.updates[i] == uA.updates[i], "state-machine-content-is-the-image's")
+		}
+	}
+	vReach("done")
+}
